@@ -712,7 +712,17 @@ class Interp(object):
             except Exception:
                 cache[key] = self.NOT_HANDLED     # cycles
                 try:
-                    cache[key] = self.ev(c.class_consts[attr], Frame(None, c.module, None, 0))
+                    # the class body is the scope: functions defined in it are plain functions there (a table of handlers),
+                    # other class-level names are the class attributes
+                    fr = Frame(None, c.module, None, 0)
+                    for mname, mfi in c.methods.items():
+                        fr.locals[mname] = FuncRef(mfi)
+                    for other in c.class_consts:
+                        if other != attr and any(isinstance(n, ast.Name) and n.id == other for n in ast.walk(c.class_consts[attr])):
+                            v = self.class_value(c, other)
+                            if v is not self.NOT_HANDLED:
+                                fr.locals[other] = v
+                    cache[key] = self.ev(c.class_consts[attr], fr)
                 except (Raise, AnalysisError):
                     cache[key] = self.NOT_HANDLED
         return cache[key]
@@ -1380,6 +1390,13 @@ class Interp(object):
             return [args[0]] * args[1]
         if qual in ('operator.add', 'operator.sub', 'operator.mul') and len(args) == 2:
             return self.binop({'add': ast.Add, 'sub': ast.Sub, 'mul': ast.Mult}[qual.split('.')[1]], args[0], args[1], node, frame)
+        if qual == 'operator.index' and len(args) == 1:
+            a = args[0]
+            if isinstance(a, int):
+                return int(a)
+            if isinstance(a, (float, str, bytes)) or a is None:
+                raise Raise('TypeError', node, self.where(node, frame))
+            return a        # (a symbolic integer stays what it is)
         if qual in ('operator.iadd', 'operator.concat') and len(args) == 2:
             return self.binop(ast.Add, args[0], args[1], node, frame)
         if qual == 'functools.reduce' and len(args) >= 2 and isinstance(args[1], (list, tuple)):
@@ -1410,6 +1427,8 @@ class Interp(object):
 
     def unknown_method(self, um, args, kwargs, node, frame):
         base, name = um.recv, um.name
+        if isinstance(base, int) and not isinstance(base, bool) and name == 'bit_length' and not args:
+            return base.bit_length()
         if isinstance(base, ModRef):
             if base.name == 'functools' and name == 'partial':
                 return self.make_partial(args, kwargs)
